@@ -1280,8 +1280,9 @@ func (p *wat2cWorker) buildFunc_ins(w io.Writer, fn *ast.Func, stk *valueTypeSta
 	case token.INS_MEMORY_GROW:
 		sp0 := stk.Pop(token.I32)
 		ret0 := stk.Push(token.I32)
-		fmt.Fprintf(w, "%sif(%s_memory_size+R%d.i32 <= %s_memory_init_max_pages) {\n",
-			indent, p.opt.Prefix, sp0, p.opt.Prefix,
+		// the delta is unsigned: compare it with the room that is left, the sum may wrap
+		fmt.Fprintf(w, "%sif((uint32_t)R%d.i32 <= (uint32_t)(%s_memory_init_max_pages-%s_memory_size)) {\n",
+			indent, sp0, p.opt.Prefix, p.opt.Prefix,
 		)
 		{
 			fmt.Fprintf(w, "%sint32_t temp = %s_memory_size;\n",
